@@ -12,11 +12,12 @@ CONSTANTS
   HasDeadline = TRUE
   Prime = TRUE
   MaxPub = 6
-  MaxRead = 4
+  MaxRead = 3
   MaxStall = 2
   MaxSweep = 3
   MaxLeave = 1
-  MaxPubB = 2
-  MaxCmd = 3
+  MaxPubB = 1
+  MaxCmd = 1
 INVARIANTS Quiescent QueueBound WholeUnits
 VIEW GView
+ACTION_CONSTRAINT Emit
